@@ -22,6 +22,10 @@ CLAIMED = {
          "Unbounded theorems (Props/C20.v, 15): for both spaces, from every (invariant-satisfying) state: a successful insert/execute is exactly a map write of the result computed on the current contents, a write with allow_overwrite=False on an existing key fails and changes nothing, an automatic key is never in use (pigeonhole over injective names) so it never replaces an entry, remove/retrieve/keys reflect the map, failed operations change nothing -- for DBSpace only outside the listed finding, whose refutation witness is itself a theorem. The models are hand-written; every run replays hundreds of random histories (user keys include da_temp_<n>) on the real classes (DBSpace on SQLite) and on the models inside Coq, and a plain-dict oracle checks the real classes directly.",
          "Trusted: Coq kernel, vm_compute, fidelity of Model/DataSpace.v (sampled every run), injectivity of f'da_temp_{n}', SQLite behind DBSpace; close()/model_table() not modelled.",
          "DESIGN.md section 5 C20"),
+ "C25": ("Coq proofs about a hand-written heap model of eval_cache.py (key injectivity from hash injectivity; refinement of the copy-on-store/copy-on-get cache to a map of frame values by induction over histories); model tied to the code by differential correspondence of random histories evaluated in Coq",
+         "Unbounded theorems (Props/C25.v, 6): keys are injective in dialect, SQL and data map (given that the frame hash separates frames -- a stated hypothesis) and independent of insertion order; for every history in which the caller mutates only frames it holds, the cache with private copies yields operation-by-operation the outputs of a plain map from keys to frame VALUES (so mutating a returned copy or the stored frame never changes the cache); lookups succeed exactly after a store under an equal key. Every run replays random new/mutate/store/get/read histories on the real ResultCache and on the model inside Coq, runs a dict oracle, and probes the hash hypothesis on all pairs of 18 frames differing in one value, column name, shape, row order or dtype.",
+         "Trusted: Coq kernel, vm_compute, fidelity of Model/Cache.v (sampled), hash_data_frame separates frames (hypothesis; one listed finding: bool vs int), list.sort canonical, pandas copy()/equals().",
+         "DESIGN.md section 5 C25"),
 }
 NOT_YET = "check not built yet (work in progress; see DESIGN.md section 8 build order)"
 
